@@ -83,7 +83,7 @@ def fetch_impl(wc, keys, rep, chunks):
         return ("e", core.exn_name(e))
 
 
-SERDES = ["none", "pickle0", "pickle2", "pickle5", "compressed", "custom", "legacy"]
+SERDES = ["none", "pickle0", "pickle2", "pickle5", "compressed", "custom", "legacy", "wideflags"]
 
 
 def make_serde(name):
@@ -95,12 +95,17 @@ def make_serde(name):
     if name == "compressed":
         return serde.CompressedSerde(min_compress_len=16)
 
+    # a serializer of the application's own, with its own flag values: small ones, or (name "wideflags") flags that need all 32 bits
+    fa, fb = (2 ** 32 - 1, 1 << 16) if name == "wideflags" else (9, 11)
+
     class Rev:
         def serialize(self, key, value):
-            return (value[::-1], 9) if isinstance(value, bytes) else (repr(value).encode(), 11)
+            return (value[::-1], fa) if isinstance(value, bytes) else (repr(value).encode(), fb)
 
         def deserialize(self, key, value, flags):
-            return value[::-1] if flags == 9 else eval(value.decode())
+            if flags not in (fa, fb):
+                raise ValueError("item came back with flags %r, stored with %r or %r" % (flags, fa, fb))
+            return value[::-1] if flags == fa else eval(value.decode())
     return Rev()
 
 
@@ -143,7 +148,7 @@ def roundtrip(stack, c, serde_name, key, value, chunks, coll):
     try:
         if cl.set(key, value, noreply=False) is not True:
             return "set did not report success"
-        cl.set(other, b"OTHER" if serde_name in ("none", "custom", "legacy") else "OTHER", noreply=False)
+        cl.set(other, b"OTHER" if serde_name in ("none", "custom", "legacy", "wideflags") else "OTHER", noreply=False)
         got = cl.get(key)
         if got != want or type(got) is not type(want):
             return "get returned %r (%s), stored %r (%s)" % (repr(got)[:80], type(got).__name__, repr(want)[:80], type(want).__name__)
@@ -170,7 +175,7 @@ def roundtrip(stack, c, serde_name, key, value, chunks, coll):
         if pfx:
             kb = key.encode("utf8") if isinstance(key, str) else key
             shadow = pfx + kb
-            sval = b"SHADOW" if serde_name in ("none", "custom", "legacy") else "SHADOW"
+            sval = b"SHADOW" if serde_name in ("none", "custom", "legacy", "wideflags") else "SHADOW"
             if cl.set(shadow, sval, noreply=False) is not True:
                 return "set(%r) did not report success" % (shadow,)
             g_own, g_sh = cl.get(key), cl.get(shadow)
@@ -197,7 +202,7 @@ def roundtrip(stack, c, serde_name, key, value, chunks, coll):
                 return "%s with repeated keys [key, key, other, absent, other, key] returned %r" % (fetch, repr(rep)[:160])
         # a batch of values of DIFFERENT kinds stored by one set_many: each comes back as itself (each item has its own flags)
         batch = {b"m-bytes": b"raw\r\n", b"m-text": "text", b"m-int": 7, b"m-bytes2": b"\xff\xfe"}
-        if serde_name in ("none", "custom", "legacy"):
+        if serde_name in ("none", "custom", "legacy", "wideflags"):
             batch = {k: v for k, v in batch.items() if isinstance(v, bytes)}
         else:
             batch[b"m-obj"] = (1, "a", None)
@@ -226,7 +231,7 @@ def rt_cases(ctx):
     rng = random.Random(ctx.seed * 61 + 4)
     out = []
     for serde_name in SERDES:
-        vals = NASTY if serde_name in ("none", "custom", "legacy") else NASTY[:6] + VALUES_OBJ
+        vals = NASTY if serde_name in ("none", "custom", "legacy", "wideflags") else NASTY[:6] + VALUES_OBJ
         if serde_name == "none":
             vals = vals + ["text", "\xe9", 5, -5]
         for v in vals:
@@ -240,7 +245,7 @@ def rt_cases(ctx):
         for coll in ("list", "tuple", "set", "dict_keys", "iterator", "generator"):
             out.append(("Client", dict(tcp=False, prefix=b"p:", unicode=True, enc=1, default_noreply=False, ignore_exc=False), "none", key, b"v\r\nEND\r\n", [1] * 30, coll))
     for serde_name in SERDES:
-        if serde_name in ("none", "custom", "legacy"):
+        if serde_name in ("none", "custom", "legacy", "wideflags"):
             continue
         for v in subclass_values():
             for stack in ("Client", "PooledClient", "HashClient"):
